@@ -838,6 +838,12 @@ fn add_semi_join_reduction(
         source: LogicalPlan,
         inner_name: String,
         outer_name: String,
+        /// Relation qualifiers of the two key columns: the reduction join
+        /// puts the outer source and the aggregate input side by side, and
+        /// with a self-correlated subquery (`FROM t x1 ... FROM t x2`) both
+        /// keys carry the same bare name.
+        inner_rel: Option<String>,
+        outer_rel: Option<String>,
         /// A bare (possibly filtered/projected) dimension scan — no joins
         /// inside. Preferred: joining it is far cheaper than re-running a
         /// semi-joined fact subtree, and its correlation key is the
@@ -891,6 +897,8 @@ fn add_semi_join_reduction(
             cands.push(ReductionCand {
                 inner_name: inf.name.clone(),
                 outer_name: outf.name.clone(),
+                inner_rel: inf.relation.clone(),
+                outer_rel: outf.relation.clone(),
                 strong,
                 source: found_source,
             });
@@ -928,7 +936,14 @@ fn add_semi_join_reduction(
                 .map(|f| f.name.as_str())
                 .eq(chosen_fields.iter().map(|s| s.as_str()));
             if same_source {
-                semi_on.push((Expr::column(&c.inner_name), Expr::column(&c.outer_name)));
+                let key = |rel: &Option<String>, name: &str| match rel {
+                    Some(r) => Expr::qualified_column(r.clone(), name),
+                    None => Expr::column(name),
+                };
+                semi_on.push((
+                    key(&c.inner_rel, &c.inner_name),
+                    key(&c.outer_rel, &c.outer_name),
+                ));
             }
         }
         let mut src = cands.swap_remove(ci).source;
